@@ -168,8 +168,21 @@ def strategy(ctx):
 
 
 # ----------------------------------------------------------------------------- Griffe side
+_SWEPT: list = []
+
+
 def _scratch() -> Path:
     base = _TMP_BASE or os.environ.get("VERIF_TMP") or ("/dev/shm" if os.access("/dev/shm", os.W_OK) else "/var/tmp")
+    if not _SWEPT:
+        # housekeeping only (never part of a verdict): a shrink worker that the runner terminates on its time-out cannot
+        # remove its current case directory; remove such leftovers once per process when they are older than 15 minutes
+        _SWEPT.append(True)
+        import time
+
+        for old in Path(base).glob("verif-C11-case-*"):
+            with contextlib.suppress(OSError):
+                if time.time() - old.stat().st_mtime > 900:
+                    shutil.rmtree(old, ignore_errors=True)
     return Path(tempfile.mkdtemp(prefix="verif-C11-case-", dir=base))
 
 
@@ -333,7 +346,7 @@ def judge(an: dict, breakages: list[tuple[str, str]]) -> list[Fail]:
         fails.append(
             Fail(
                 "compatible-silent",
-                "reported:" + ",".join(kinds),
+                "reported:" + kinds[0],  # coarse: first breakage kind (alphabetically); all of them are in the message
                 f"script of compatible edits only {script} but find_breaking_changes reported {breakages}",
                 {"old": an["old_files"], "new": an["new_files"]},
             )
@@ -343,7 +356,7 @@ def judge(an: dict, breakages: list[tuple[str, str]]) -> list[Fail]:
             fails.append(
                 Fail(
                     "incompatible-reported",
-                    f"{e['op']}:{e['loc']}:{e['ekind']}:unreported",
+                    f"{e['op']}:unreported",  # coarse on purpose: location class / entity kind are in the message
                     f"{e['op']} of public {e['ekind']} {e['ent']} ({e['loc']}): expected a {e['kind']} breakage on one of {e['paths']}; "
                     f"reported: {breakages}; script {script}",
                     {"old": an["old_files"], "new": an["new_files"]},
